@@ -169,7 +169,7 @@ namespace cs
                                   (long long)r.below(9), (long long)r.below(5),
                                   r.chance(1, 3) ? -(long long)r.range(1, 2000) : r.pick<long long>({0, 0, 0, 1, 12, 100}),
                                   (profile == "C20J" || r.chance(1, 4)) ? (long long)r.below(30) : 0,
-                                  (long long)r.below(2), r.chance(1, 5) ? 1 : 0});
+                                  (long long)r.below(2), r.chance(1, 5) ? 1 : r.chance(1, 5) ? 2 : 0});
                 }
             }
         }
